@@ -1,6 +1,7 @@
 import Driver.Loop
 import IrohModel.Common.Hex
 import IrohModel.C30.Model
+import IrohModel.C30.Triggers
 open IrohModel IrohModel.C30 IrohModel.Generated.C30
 
 def parseNat? (s : String) : Option Nat :=
@@ -94,8 +95,51 @@ def insertSorted (s : Svc) : List Svc → List Svc
   | [] => [s]
   | x :: xs => if s.id ≤ x.id then s :: x :: xs else x :: insertSorted s xs
 
+/-! ### `E` payloads: publish triggers (Triggers.lean) -/
+
+open IrohModel.C30.Triggers in
+def fmtEData : Option EData → String
+  | none => "none"
+  | some d =>
+    let ips := d.ips.map fun a => if a == 0 then "L" else s!"x{a - 1}"
+    s!"ips={if ips.isEmpty then "-" else ".".intercalate ips} relay={if d.relay.isSome then 1 else 0} ud={match d.ud with | some u => s!"u{u}" | none => "-"}"
+
+def insertNat (a : Nat) : List Nat → List Nat
+  | [] => [a]
+  | x :: xs => if a < x then a :: x :: xs else if a == x then x :: xs else x :: insertNat a xs
+
+open IrohModel.C30.Triggers in
+def handleE (cfg ops : String) (l : String) : String :=
+  let hasLocal := l == "L=1"
+  -- start of the endpoint: initial publish, then the transports report their local addresses,
+  -- then the first direct-address update
+  let boot : Option (List Ev) := match cfg with
+    | "ip" => some ([.start, .localAddrs [0] none] ++ (if hasLocal then [.storeDirect [0]] else []))
+    | "relay" => some [.start, .localAddrs [] (some 1)]
+    | "dead" => some [.start]
+    | _ => none
+  let opToks := if ops == "-" then [] else ops.splitOn ","
+  match boot with
+  | none => "bad-payload"
+  | some boot =>
+    let s0 := Triggers.run {} boot
+    let res := opToks.foldl (fun (acc : Option (Sock × List String)) tok =>
+      acc.bind fun (s, outs) =>
+        let ev : Option Ev :=
+          if tok.startsWith "+x" then (parseNat? (tok.drop 2).toString).map fun k => .storeDirect (insertNat (k + 1) s.direct)
+          else if tok.startsWith "-x" then (parseNat? (tok.drop 2).toString).map fun k => .storeDirect (s.direct.filter (· != k + 1))
+          else if tok == "u-" then some (.setUserData none)
+          else if tok.startsWith "u" then (parseNat? (tok.drop 1).toString).map fun k => .setUserData (some k)
+          else none
+        ev.map fun ev => let s' := Triggers.step s ev; (s', fmtEData s'.last :: outs)) (some (s0, [fmtEData s0.last]))
+    match res with
+    | some (_, outs) => ";".intercalate outs.reverse
+    | none => "bad-payload"
+
 def handleLine (payload : String) : String :=
   match tokens payload with
+  | ["E", cfg, ops, l] => handleE cfg ops l
+  | ["E", _, _] => "bad-payload"
   | [f, pre, th, sc] =>
     let filt : Option Filter := match f with
       | "f=n" => some .none | "f=r" => some .relayOnly | "f=i" => some .ipOnly | _ => none
